@@ -7,6 +7,7 @@ FUNC = "solve_slitherlink"
 LOOP = True
 VALUES = [-1, 0, 1, 2, 3, 4]
 TIER1 = ("Slitherlink", "solve_slitherlink_model")
+TIER1_PRIM = ("SlitherlinkPrim", "solve_slitherlink_model_prim")
 
 
 def call(mod, pb):
